@@ -247,7 +247,7 @@ def tagsAt (isa : Isa) (fd : Bool) (p : Ins) (seg : List Ins) (c : Ins) : List T
     match d with
     | .reg r => tagsTarget isa (.reg r) (if r.preIdx || r.postIdx then .pIndexed else .plain) seg c
     | .flag n => if fd then tagsTarget isa (.flag n) .plain seg c else []
-    | .mem m => tagsMem isa m (updateState [] p.changes) seg c
+    | .mem m => tagsMem isa m (startState p) seg c
     | .other => []
 
 theorem scanTarget_at (isa : Isa) (t : Target) (tag : Tag) (seg more : List Ins) (c : Ins)
